@@ -122,7 +122,7 @@ impl Property for C30 {
     ]
   }
   fn plan(tier: Tier) -> Plan {
-    Plan { workers: 16, cases_per_worker: tier.pick(2500, 60000) }
+    Plan { workers: 16, cases_per_worker: tier.pick(2500, 120000) }
   }
   fn shrink_iters() -> u32 {
     1500
